@@ -143,6 +143,10 @@ func genC11(m *M, budget int) {
 			f.emitF("MSswu", kv{"a", 1}, kv{"x", x}, kv{"y", y})
 			r := secp256k1.IsogenySecp256k13iso(q)
 			f.emitF("MIso", kv{"x", x}, kv{"y", y}, kv{"res", f.resultObs(r)})
+			if j%2 == 0 { // the curve polynomial x^3 + 7 on the same value (exported; the decoders rest on it)
+				secp256k1.Secp256Polynomial(f.F[1], f.F[0])
+				f.emitF("MPoly", kv{"d", 2}, kv{"a", 1})
+			}
 			if j == 9 && len(f.horner()) > 0 {
 				// points of E' at which a PARTIAL sum of one of the four isogeny polynomials vanishes (where a zero test
 				// placed one step early or late in the evaluation fires), reached through the map itself when a u exists
